@@ -173,6 +173,61 @@ Definition convolve := convolve_with factorial false.                 (* the cur
 Definition convolve_signflip := convolve_with factorial true.         (* after the factorial fix only *)
 Definition convolve_shipped := convolve_with factorial_shipped true.  (* as shipped *)
 
+(* ---------------------------------------------------------------------------------------------- *)
+(* The same four nested loops written as the code runs them, without positions: the old array is cut into
+   [stride1] slabs of [naxes_old] rows of [stride2] cells; for every slab and every row [j] of the transfer matrix
+   the target row (stride2 cells, 0.f to begin with) receives, for l = 0,1,..., the update
+       for (k < stride2) target[k] += trafo[j][l] * row_l[k]        ([axpy]: double multiply-add stored into a float).
+   No [nth] with a computed position, hence linear in the size of the arrays when executed (the positional form above
+   costs one list walk per update and is unusable beyond a few thousand coefficients). C14_Rows.v proves
+   [apply_trafo_rows = apply_trafo] and [convolve_rows_with = convolve_with] for well-formed tables; the driver runs
+   this form, and runs both forms (asserting equality) on every table of at most 2000 coefficients. *)
+Fixpoint chunks {X : Type} (n cnt : nat) (l : list X) : list (list X) :=
+  match cnt with
+  | O => []
+  | S c => firstn n l :: chunks n c (skipn n l)
+  end.
+Fixpoint axpy (t : K) (acc row : list K) : list K :=
+  match acc, row with
+  | a :: acc1, x :: row1 => rnd (add a (mul t x)) :: axpy t acc1 row1
+  | _, _ => []
+  end.
+Definition target_row (trow : list K) (rows : list (list K)) (stride2 : nat) : list K :=
+  fold_left (fun acc tr => axpy (fst tr) acc (snd tr)) (combine trow rows) (repeat zero stride2).
+Definition apply_trafo_rows (trafo : list (list K)) (old : list K) (stride1 stride2 naxes_old : nat) : list K :=
+  flat_map (fun slab => let rows := chunks stride2 naxes_old slab in
+                        flat_map (fun trow => target_row trow rows stride2) trafo)
+           (chunks (naxes_old * stride2) stride1 old).
+
+(* [convolve_with] with [apply_trafo_rows] in the place of [apply_trafo]; everything else token for token *)
+Definition convolve_rows_with (fact : nat -> Z) (flip : bool) (sort : list K -> list K) (t : ctable) (dim : nat) (kk : list K) : ctable :=
+  let d := nth dim (c_dims t) dummy_dim in
+  let n := length kk in
+  let convorder := c_order d + n - 1 in
+  let rho := sort (pairwise_sums (c_knots d) kk) in
+  let n_rho := c_nknots d * n in
+  let naxes_old := c_naxes d in
+  let naxes_new := n_rho - convorder - 1 in
+  let naxes := replace_nth dim (map c_naxes (c_dims t)) naxes_new in
+  let strides := fst (strides_of naxes) in
+  let k := c_order d + 1 in
+  let q := n - 1 in
+  let nrm := norm_with fact flip k q in
+  let stride1 := prodn (firstn dim naxes) in
+  let stride2 := prodn (skipn (S dim) naxes) in
+  let trafo := trafo_matrix nrm (c_knots d) kk rho k q naxes_new naxes_old in
+  let coefficients := apply_trafo_rows trafo (c_coef t) stride1 stride2 naxes_old in
+  let ext0 := if ltb (fst (c_ext d)) (nth (c_order d) (c_knots d) zero) then nth 0 rho zero else nth convorder rho zero in
+  let ext1 := add (snd (c_ext d)) (nth 0 kk zero) in
+  let d' := mkCDim convorder rho naxes_new 0 (ext0, ext1) in
+  let dims1 := replace_nth dim (c_dims t) d' in
+  let dims2 := map (fun ds => mkCDim (c_order (fst ds)) (c_knots (fst ds)) (c_naxes (fst ds)) (snd ds) (c_ext (fst ds)))
+                   (combine dims1 strides) in
+  mkCTable dims2 coefficients.
+Definition convolve_rows := convolve_rows_with factorial false.
+Definition convolve_rows_signflip := convolve_rows_with factorial true.
+Definition convolve_rows_shipped := convolve_rows_with factorial_shipped true.
+
 (* the std::sort stand-in used when the model is executed: insertion sort on [leb] *)
 Fixpoint insert_sorted (a : K) (l : list K) : list K :=
   match l with
